@@ -555,7 +555,7 @@ func runC10(c *ctx) {
 func c10runAll(cases []c10case, slow int) []c10obs {
 	obs := make([]c10obs, len(cases))
 	var wg sync.WaitGroup
-	sem := make(chan struct{}, 24)
+	sem := make(chan struct{}, vlib.Conc(24))
 	for i := range cases {
 		wg.Add(1)
 		sem <- struct{}{}
